@@ -74,6 +74,43 @@ def _contracts():
         out.append(Contract("C03", "partitura.io.exportmusicxml.find_free_voice",
                             [("voice_spans", ListOf(TupleOf(Int(), Int(), Int()), n)), ("start", Int()), ("end", Int())],
                             ensures=[("above_the_minimum_and_every_overlapping_span_and_tight", ffv_ens)], name="find_free_voice[%d spans]" % n))
+
+    # add_chord_tags: element k carries <chord/> iff the element before it is not a grace note and has the same onset and duration
+    # (the reader places a chord note at the onset, and gives it the duration, of the note element before it)
+    import itertools
+    from pyv.contracts import Enum
+
+    def act_call(ip, fobj, a):
+        from lxml import etree
+        notes = []
+        for k, kind in enumerate(a.kinds):
+            e = etree.Element("note")
+            if kind == "grace":
+                etree.SubElement(e, "grace")
+            etree.SubElement(e, "pitch")
+            notes.append((a.times[k][0], a.times[k][1], e))
+        if ip is None:
+            fobj(notes)
+        else:
+            ip.call(fobj, [notes], {})
+        return notes
+
+    def act_ens(a, r):
+        ok = True
+        for k, (on, du, e) in enumerate(r):
+            has = len(e) > 0 and e[0].tag == "chord"
+            n_chord = sum(1 for c in e if c.tag == "chord")
+            if k == 0 or a.kinds[k - 1] == "grace":
+                want = False
+            else:
+                want = (on == r[k - 1][0]) & (du == r[k - 1][1])
+            ok = ok & (want if has else ~want if not isinstance(want, bool) else (not want)) & (n_chord == (1 if has else 0))
+        return ok
+    for n in (1, 2, 3):
+        out.append(Contract("C03", "partitura.io.exportmusicxml.add_chord_tags",
+                            [("kinds", Enum(list(itertools.product(("note", "grace"), repeat=n)))), ("times", ListOf(TupleOf(Int(), Int()), n))],
+                            call=act_call, ensures=[("chord_tag_iff_same_onset_and_duration_as_the_preceding_non_grace_element", act_ens)],
+                            name="add_chord_tags[%d elements]" % n))
     return out
 
 
